@@ -89,7 +89,7 @@ func checkC04(c *Check) {
 			var bodyStart []Pt
 			var loop *ElemLoop
 			for _, l := range elemLoops(info, fi.Decl.Body, func(ast.Expr) bool { return true }) {
-				if posIn(l.Body, as.Pos()) && l.ElemObj() == k {
+				if within(l.Body, as) && l.ElemObj() == k {
 					loop = l
 				}
 			}
@@ -473,7 +473,7 @@ func checkC04(c *Check) {
 			var tloop *ast.RangeStmt
 			for _, rs := range rangesIn(r.FI.Decl.Body, func(rs *ast.RangeStmt) bool {
 				fv := fieldOf(info, rs.X)
-				return fv != nil && objName(fv) == "targets" && posIn(rs.Body, call.Pos())
+				return fv != nil && objName(fv) == "targets" && within(rs.Body, call)
 			}) {
 				tloop = rs
 			}
